@@ -7,6 +7,7 @@ use glonax::runtime::{J1939Unit, NetDriverContext};
 
 /// case = [da, sa, motion...]
 pub fn exec(c: &[i64]) -> Vec<i64> {
+    if c[0] == 1000 { return crate::authrig::exec(&c[1..]); }
     let (da, sa) = (c[0] as u8, c[1] as u8);
     let Some((m, _)) = dec_motion(&c[2..]) else { return vec![-2] };
     let r = std::panic::catch_unwind(|| {
@@ -80,6 +81,26 @@ pub fn gen(o: &Opts, sink: &mut dyn FnMut(Vec<i64>, String)) {
             let v = match rng.below(8) { 0 => -1, 1 => -32768, 2 => 32767, 3 => 0, _ => rng.range(-32768, 32767) };
             c.push(v);
         }
+        put(c, sink);
+    }
+    // the same commands through the real NetworkAuthority (command and tick handles are clones of the
+    // instance, as in the runtime), with and without a per-driver source address override
+    let n = if o.tier_thorough { 3_000 } else { 300 };
+    for j in 0..n {
+        let mut rng = Rng::new(o.seed, 2_900_000 + j);
+        let (da, sa): (i64, Option<i64>) = match rng.below(4) { 0 => (0x4A, Some(0x31)), 1 => (0x4A, Some(0x11)), 2 => (0x01, Some(0xFE)), _ => (0x4A, None) };
+        let mut c = vec![1000]; c.extend(crate::c10::config(&[(1, da, sa, 0)]));
+        c.push(5); c.push(2);
+        for _ in 0..(2 + rng.below(6)) {
+            c.push(3);
+            match rng.below(5) {
+                0 => c.push(0), 1 => c.push(1),
+                2 => { c.push(5); c.push(rng.range(-32768, 32767)); }
+                _ => { let len = 1 + rng.below(6) as i64; c.extend([16, len]); for _ in 0..len { c.push(rng.below(6) as i64); c.push(rng.range(-32768, 32767)); } }
+            }
+            if rng.chance(1, 2) { c.push(2); }
+        }
+        c.push(2);
         put(c, sink);
     }
 }
